@@ -318,9 +318,21 @@ CsiEq(got, want) ==
           /\ \A k \in 1..Len(got.p) : SubsEq(got.p[k], want.p[k])
 
 HasHuge(ps) == \E k \in 1..Len(ps) : ps[k] = Huge
+(* A device control string carries every one of its parameters: as many as   *)
+(* were sent, each with its exact value.  A value outside the prescribed     *)
+(* range (Huge) leaves THAT value open and nothing else: the parameters      *)
+(* beside it are as exact as in any other sequence.                          *)
+DcsParamsEq(got, want) == Len(got) = Len(want) /\ \A k \in 1..Len(want) : ValEq(got[k], want[k])
 DcsEq(got, want) ==
   /\ got.t = "dcs" /\ got.i = want.i /\ got.f = want.f /\ got.d = want.d
-  /\ (HasHuge(want.p) \/ got.p = want.p)
+  /\ DcsParamsEq(got.p, want.p)
+
+(* Error values.  The parser may report, beside the sequences, a character   *)
+(* for which the state table has no entry (Dev_NonAscii).  The table has an  *)
+(* entry for every character 00-7F in every state: an input made of those    *)
+(* only is well-formed or handled by the table's own ignore states, and is   *)
+(* delivered as its sequences and nothing else.                              *)
+TableCoversAll(xs) == \A k \in 1..Len(xs) : xs[k] = Gap \/ In(xs[k], 0, 127)
 
 ItemEq(got, want) == IF want.t = "csi" THEN CsiEq(got, want)
                      ELSE IF want.t = "dcs" THEN DcsEq(got, want)
